@@ -4,4 +4,6 @@ go 1.24.2
 
 require example.com/scion-time v0.0.0
 
+require golang.org/x/sys v0.31.0 // indirect
+
 replace example.com/scion-time => /repo
